@@ -198,8 +198,7 @@ def c03(rec, st):
         return out
     stmt = rec.stmt
     if opt(stmt, "filter_size") is not None:
-        st["c03.skip_finite_filter"] += 1
-        return out
+        return c03_finite_filter(rec, st)
     evals, _ = eval_table(rec)
     if not evals:
         return out
@@ -261,6 +260,42 @@ def c03(rec, st):
                     return out
             st["c03.merit_checked"] += 1
     st["c03.infeasible_checked"] += 1
+    return out
+
+
+def c03_finite_filter(rec, st):
+    """End-to-end clause for a finite filter_size: the documented retention rule is run on the recorded
+    (objective, violation) history and the documented selection on what it retains (final penalty from the
+    probe).  Only for all-finite histories without linear constraints, where the reference violation is computed
+    by the very same subtractions as the solver's and no rounding can differ."""
+    from ..machines.filter import ref_retention, ref_select
+    out = []
+    stmt, res = rec.stmt, rec.res
+    ps = rec.probe
+    if stmt.get("linear") or ps is None or ps.final is None:
+        st["c03.finite_filter_not_evaluated"] += 1
+        return out
+    evals, _ = eval_table(rec)
+    size = int(opt(stmt, "filter_size"))
+    tol = feas_tol(stmt)
+    kept = []
+    for e in evals:
+        if e.fun is None:
+            return out
+        V, scale, has_nan = V_of(rec, e)
+        if has_nan or not (math.isfinite(V) and math.isfinite(e.fun)):
+            st["c03.finite_filter_nonfinite_skipped"] += 1
+            return out
+        kept = ref_retention(kept, (float(e.fun), float(V), e.idx), size)
+    pen = ps.final["penalty"]
+    if not kept or not math.isfinite(pen):
+        return out
+    want = ref_select(kept, pen, tol)
+    st["c03.finite_filter_checked"] += 1
+    if not (want[0] == float(res["fun"]) and want[1] == float(res["maxcv"])):
+        out.append(Viol("C03", "finite_filter", "filter_size=%d: result (fun=%r, maxcv=%r); the documented retention and "
+                        "selection rules give (fun=%r, maxcv=%r) from evaluation %d"
+                        % (size, res["fun"], res["maxcv"], want[0], want[1], want[2]), key="finite_filter"))
     return out
 
 
